@@ -343,7 +343,12 @@ class TemplateManipulator:
 			if actual_path != schema_begin_path and not actual_path.startswith(f'{schema_begin_path}.'):
 				continue
 
-			diff = DSN.elem_counts(actual_elems) - DSN.elem_counts(schema_elems)
+			# 階層の深さだけでなく、各階層のインデックスも一致するパスを対象とする
+			schema_counts = DSN.elem_counts(schema_elems)
+			diff = DSN.elem_counts(actual_elems) - schema_counts
+			if diff >= 0 and DSN.left(actual_elems, schema_counts) != schema_elems:
+				continue
+
 			if diff == 0:
 				return actual_path
 			elif diff > 0:
